@@ -31,16 +31,19 @@ PROPS["C01"] = {
 
 PROPS["C16"] = {
     "modules": ["IbexProofs.Props.C16"],
-    "harnesses": ["h_itv"],
+    "harnesses": ["h_itv", "h_bsc"],
     "workloads": lambda tier, seed: [
         {"harness": "h_itv", "tag": "set", "args": ["c16", seed, 3000 if tier == "quick" else 100000] + (["full"] if tier == "thorough" else [])},
         {"harness": "h_itv", "tag": "box", "args": ["c16box", seed, 3000 if tier == "quick" else 100000] + (["full"] if tier == "thorough" else [])},
+        # bisectors that need a system: SmearMax/Sum/SumRelative/MaxRelative (+ LargestFirst fallback), OptimLargestFirst with / without the objective
+        {"harness": "h_bsc", "tag": "bsc", "args": ["c16bsc", seed, 120 if tier == "quick" else 4000]},
     ],
     "nontrivial": _nonempty_inputs,
     "rule": "lattice pairs of special endpoints (sampled in quick, exhaustive in thorough) + random and related (shared bounds, touching faces, "
             "degenerate components) intervals/boxes of dimension 1-4; exact equality with the model's set operation, certificate check for "
             "bisections and bisector answers (LargestFirst, RoundRobin with call histories); non-trivial = no empty argument",
-    "assumptions": ["correspondence is sampled", "SmearFunction bisectors and OptimLargestFirst not yet driven (need a system)"],
+    "assumptions": ["correspondence is sampled", "LSmear needs an LP library (none in this configuration): not driven",
+                    "OptimLargestFirst bisects the objective only under its documented special conditions: `none` means that no other variable can be bisected"],
     "trusted": ["g++/x86-64 IEEE-754 arithmetic"],
     "technique": "Lean 4 proof (model set operations <-> point-wise definitions over R, any dimension; certificate checkers for bisection) + differential correspondence (=) with the C++",
     "level_text": "Kernel-checked theorems: inter/hull/subset/strict/interior subset/intersects/overlaps/disjoint of the model agree with their point-wise definitions over the reals; diff and complementary (intervals and boxes of any dimension, by induction on the peeling loop) return pieces inside x that cover x minus y and share no positive-volume box with y; an accepted bisection covers the box, meets on one plane and is strictly smaller; accepted bisector answers respect the precision. The C++ is compared = with the model (order-insensitive for lists of boxes) on every generated case, bisections/bisectors through the verified checkers.",
